@@ -606,13 +606,21 @@ func (t *Transport) gsReqRecdHook(p peer.ID, request graphsync.RequestData, hook
 
 		log.Debugf("%s: received request for data (pull), req_id=%d", chid, request.ID())
 
+		// A cancel never opens a graphsync request. The manager handles a cancel by
+		// cleaning up the transport channel, which takes the channel lock, so it
+		// must not be passed on while this hook holds that lock: refuse the request.
+		dtRequest := msg.(datatransfer.Request)
+		if dtRequest.IsCancel() {
+			hookActions.TerminateWithError(errors.New("graphsync request cannot carry a cancel request"))
+			return
+		}
+
 		// Lock the channel for the duration of this method
 		ch = t.trackDTChannel(chid)
 		ch.lk.Lock()
 		defer ch.lk.Unlock()
 
-		request := msg.(datatransfer.Request)
-		responseMessage, err = t.events.OnRequestReceived(chid, request)
+		responseMessage, err = t.events.OnRequestReceived(chid, dtRequest)
 	} else {
 		// when a data transfer response comes in on graphsync, this node
 		// initiated a push, and the remote peer responded with a request
